@@ -142,10 +142,30 @@ class BuildError(Exception):
     pass
 
 
-def run_native(binary, check, tier, seed, extra=(), timeout=3600):
+REPO_TARGET = os.path.join(BUILD, "repo-target")
+
+
+def build_repo_binary():
+    """Build the real `solstat` binary from /repo's working tree with hooks enabled (--cfg solstat_verif).
+    Uses its own target dir under /verif/build so /repo/target is left alone."""
+    ensure_dirs()
+    env = dict(os.environ, CARGO_TARGET_DIR=REPO_TARGET, CARGO_NET_OFFLINE="true")
+    flags = env.get("RUSTFLAGS", "")
+    if "solstat_verif" not in flags:
+        env["RUSTFLAGS"] = (flags + " --cfg solstat_verif").strip()
+    p = subprocess.run(["cargo", "build", "--offline", "--release", "--bin", "solstat"], cwd=C.REPO, env=env, capture_output=True, text=True)
+    if p.returncode != 0:
+        raise BuildError("solstat binary does not build:\n" + p.stderr[-4000:])
+    return os.path.join(REPO_TARGET, "release", "solstat")
+
+
+def run_native(binary, check, tier, seed, extra=(), timeout=3600, env=None):
     cmd = [binary, check, "--tier", tier, "--seed", str(seed)] + list(extra)
     t0 = time.time()
-    p = subprocess.run(cmd, capture_output=True, text=True, timeout=timeout, cwd=VERIF)
+    e = dict(os.environ)
+    if env:
+        e.update(env)
+    p = subprocess.run(cmd, capture_output=True, text=True, timeout=timeout, cwd=VERIF, env=e)
     wall = time.time() - t0
     try:
         res = json.loads(p.stdout.strip().splitlines()[-1])
